@@ -383,6 +383,11 @@ func (w *World) Tick() *gtfsrt.FeedMessage {
 			continue
 		}
 		w.step(tr)
+		if t.Chance(1, 40) {
+			// the descriptor's route changes while trip id and start stay the same (the journal carries the last one)
+			tr.route = tr.route + "X"
+			t.Probe("world-route-relabelled")
+		}
 		if t.Chance(1, 24) {
 			tr.trainID = tr.trainID + "'" // the consist was swapped: same trip, new vehicle id
 			t.Probe("world-vehicle-swap")
